@@ -17,6 +17,7 @@ type thread struct {
 	done    bool
 	waiting func() bool // non-nil: blocked until it returns true
 	why     string
+	dead    bool // discarded by a modelled process exit
 }
 
 type scheduler struct {
@@ -48,7 +49,7 @@ func newScheduler(i *interpreter) *scheduler {
 }
 
 func (s *scheduler) runnable(t *thread) bool {
-	if t.done {
+	if t.done || t.dead {
 		return false
 	}
 	if t.waiting != nil {
